@@ -17,9 +17,9 @@ import (
 // the guard that covers it), so a new unguarded site re-opens an obligation.
 var requestPathDirs = []string{".", "pkg/cookies", "pkg/encryption", "pkg/sessions/cookie", "pkg/sessions/persistence", "pkg/sessions/redis",
 	"pkg/middleware", "pkg/app/redirect", "pkg/app/pagewriter", "pkg/header", "pkg/ip", "pkg/requests/util", "pkg/util", "pkg/apis/sessions",
-	"pkg/apis/middleware", "pkg/upstream", "pkg/authentication/basic", "pkg/providers/oidc", "pkg/providers/util"}
+	"pkg/apis/middleware", "pkg/upstream", "pkg/authentication/basic", "pkg/providers/oidc", "pkg/providers/util", "providers", "pkg/requests", "pkg/logger"}
 
-var requestPathFilesExtra = []string{"providers/oidc.go", "providers/provider_data.go", "providers/provider_default.go"}
+var requestPathFilesExtra = []string{}
 
 func genSites() {
 	g := &gen{}
